@@ -157,7 +157,13 @@ fn gen_run(tape: &[u8], stats: &mut GenStats, with_failure_clause: bool) -> Opti
         document = d.clone();
         invalid_rule = Some(r.clone());
     }
-    let preexisting_target = if t.chance(30) { Some("// old generated file\n".to_string()) } else { None };
+    // a pre-existing target: short, or much longer than anything the generator writes (a stale
+    // tail must not survive)
+    let preexisting_target = match t.weighted(&[60, 20, 20]) {
+        0 => None,
+        1 => Some("// old generated file\n".to_string()),
+        _ => Some("// old generated file, longer than the new one\n".repeat(6000)),
+    };
     Some(Run { tape: tape.to_vec(), schema_text: b.case.schema_text.clone(), schema_ext: b.case.schema_ext.clone(), document, query_rel, out_dir, no_formatting, opts, args, invalid_rule, preexisting_target, n_flags })
 }
 
